@@ -48,11 +48,48 @@ class Ctx:
             # rules (age limits, permission bits), and there is nothing to gain from summarising them
             if b['def_kind'] == 'Fn' and b['arg_count'] == 0 and not [c for c in self.cg.local_edges.get(k, ()) if c in self.B and self.B[c]['def_kind'] != 'Closure']:
                 self.pure.discard(k)
-        # field getters (`fn x(&self) -> &T / Option<&T>`, a few blocks, no local callee): looked through, so that what
-        # is known about the field is known about the getter's result
+        # scalar conversions (bool -> two-variant enum, index -> index, ...): tiny, and their result usually steers a
+        # branch the rules need to follow (e.g. a sync policy derived from the auto_sync flag)
+        def scalar(tyid):
+            t = self.T[tyid]
+            if t['k'] in ('bool', 'int', 'uint', 'char'):
+                return True
+            if t['k'] == 'adt' and t.get('local') and t.get('is_enum') and t.get('variants') and all(not v['fields'] for v in t['variants']):
+                return True
+            return False
         for k in list(self.pure):
             b = self.B[k]
-            callees = [c for c in self.cg.local_edges.get(k, ()) if self.B[c]['def_kind'] != 'Closure']
+            if b['def_kind'] in ('Fn', 'AssocFn') and not b.get('impl_trait') and b['arg_count'] >= 1 and \
+                    len([x for x in b['blocks'] if not x['cleanup']]) <= 8 and not self.cg.local_edges.get(k) and \
+                    all(scalar(b['locals'][i]['ty']) for i in range(0, b['arg_count'] + 1)):
+                self.pure.discard(k)
+        # predicates over a directory entry / its metadata / its name ("is this a cached file?"): the candidate-selection
+        # rules (C07 G3, C16 R16.5, C17 R17.2) must see which tests they make
+        for k in list(self.pure):
+            b = self.B[k]
+            if b['def_kind'] in ('Fn', 'AssocFn') and not b.get('impl_trait') and self.T[b['locals'][0]['ty']]['k'] == 'bool' and \
+                    any(x in self.T[b['locals'][i]['ty']]['s'] for i in range(1, b['arg_count'] + 1)
+                        for x in ('std::fs::DirEntry', 'std::fs::Metadata', 'std::ffi::OsStr', 'std::fs::FileType')):
+                self.pure.discard(k)
+        # outcome transformers: a pure helper that receives a Result (or an io::Error by value) decides what happens
+        # to an error -- classified as absence, mapped, propagated.  The error-discipline rules must see that decision,
+        # so such helpers are always looked through (the absence classifier itself takes `&io::Error` and stays a unit)
+        for k in list(self.pure):
+            b = self.B[k]
+            if b['def_kind'] not in ('Fn', 'AssocFn'):
+                continue
+            for i in range(1, b['arg_count'] + 1):
+                pt = self.T[b['locals'][i]['ty']]
+                if pt.get('adt') in ('std::result::Result', 'std::io::Error'):
+                    self.pure.discard(k)
+                    break
+        # field getters (`fn x(&self) -> &T / Option<&T>`, a few blocks, no local callee): looked through, so that what
+        # is known about the field is known about the getter's result
+        for k in list(self.pure) * 3:        # (three rounds: a getter may be built on another getter)
+            if k not in self.pure:
+                continue
+            b = self.B[k]
+            callees = [c for c in self.cg.local_edges.get(k, ()) if self.B[c]['def_kind'] != 'Closure' and c in self.pure]
             if b['def_kind'] == 'AssocFn' and not b.get('impl_trait') and b['arg_count'] == 1 and \
                     len([x for x in b['blocks'] if not x['cleanup']]) <= 8 and not callees:
                 a = self.T[b['locals'][1]['ty']]
